@@ -37,7 +37,10 @@ def wf_cfg2(name):
 
 
 def json_db_small_ids():
-    return {'alpha': ['deadbeef', '00000001', 'CAFE0000', '01020304', '0a0b0c0d'], 'beta': ['deadbeef'], 'gam': ['11111111', '22222222']}
+    # 'delta': 14 postings - with the second configuration's small block parameters that is Pi2Lev's two-level (large) case and
+    # several chunks per keyword for DP17 with L = 2
+    return {'alpha': ['deadbeef', '00000001', 'CAFE0000', '01020304', '0a0b0c0d'], 'beta': ['deadbeef'], 'gam': ['11111111', '22222222'],
+            'delta': ['d%07x' % (i * 0x01010101 % 0xfffffff) for i in range(1, 15)]}
 
 
 def json_dbs():
